@@ -35,6 +35,11 @@ impl Session {
     }
 
     pub fn abort_transaction(&mut self) -> QueryRunnerResult<()> {
+        // A transaction that has already ended (dropping a session after COMMIT ends up here)
+        // must not get an ABORT record: recovery would discard it.
+        if !self.ctx.is_open() {
+            return Ok(());
+        }
         self.logger.log_abort()?;
         self.ctx.abort_transaction()?;
         self.logger.log_end()?;
